@@ -47,7 +47,7 @@ Definition e_join_key (e : env) (k : var) (v : itv) : env :=
     if is_bot v then EBot
     else if is_top v then EMap (remove m k)
     else if is_top (get m k) then EMap (remove m k)
-    else EMap ((k, ijoin (get m k) v) :: remove m k)   (* stored even if it became top *)
+    else EMap (put m k (ijoin (get m k) v))
   end.
 
 (* pointwise combination over the keys of both maps.  [absorbing]: a key bound on one side
